@@ -43,6 +43,9 @@ type Case struct {
 	CtlOp          int         `json:"ctl_op,omitempty"`
 	CtlAPI         string      `json:"ctl_api,omitempty"` // "" = WriteMessage, "close" = WriteClose(code, reason), "frame" = WriteFrame
 	CtlLenEnc      int         `json:"ctl_len_enc,omitempty"` // recv-control: 0 minimal, 1 force the 16-bit form, 2 force the 64-bit form
+	// Handlers (declared mode): which receive handlers the application installed: "" = OnMessage,
+	// "dataframe" = OnDataFrame only, "both"
+	Handlers string `json:"handlers,omitempty"`
 }
 
 var inline = func(f func()) { f() }
@@ -109,14 +112,23 @@ func runCaseInner(c Case) vlib.Result {
 	}
 	var got []dmsg
 	var gotPayloads [][]byte
-	u.OnMessage(func(_ *websocket.Conn, mt websocket.MessageType, data []byte) {
-		got = append(got, dmsg{op: int(mt), len: len(data)})
-		if len(data) <= 1<<21 {
-			gotPayloads = append(gotPayloads, append([]byte(nil), data...))
-		} else {
-			gotPayloads = append(gotPayloads, nil)
-		}
-	})
+	if c.Handlers != "dataframe" {
+		u.OnMessage(func(_ *websocket.Conn, mt websocket.MessageType, data []byte) {
+			got = append(got, dmsg{op: int(mt), len: len(data)})
+			if len(data) <= 1<<21 {
+				gotPayloads = append(gotPayloads, append([]byte(nil), data...))
+			} else {
+				gotPayloads = append(gotPayloads, nil)
+			}
+		})
+	}
+	if c.Handlers != "" {
+		// frames handed over one by one: a frame above the limit is a message (part) above the limit
+		u.OnDataFrame(func(_ *websocket.Conn, mt websocket.MessageType, fin bool, data []byte) {
+			got = append(got, dmsg{op: int(mt), len: len(data)})
+		})
+		res.Classes = append(res.Classes, "handlers="+c.Handlers)
+	}
 	var ctlSeen []int // payload lengths handed to the ping / pong / close handlers
 	if c.Mode == "recv-control" {
 		u.SetPingHandler(func(_ *websocket.Conn, data string) { ctlSeen = append(ctlSeen, len(data)) })
@@ -491,6 +503,7 @@ func gen(maxBomb int) func(t *rapid.T) Case {
 			if c.L*c.DeclMul/c.CutSize > 20000 {
 				c.CutSize = 4096
 			}
+			c.Handlers = rapid.SampledFrom([]string{"", "", "dataframe", "both"}).Draw(t, "handlers")
 			return c
 		case 1:
 			c.Mode = "readlimit"
